@@ -315,4 +315,78 @@ Section LookupSound.
       apply (nonmem_sound_b cfg Bad B) in Hnm; auto; [|rewrite Hl; exact F2].
       destruct Hnm as [Hnm|HB]; [|right; exact HB]. exfalso. apply Hnm. rewrite Hl. apply tree_has_fresh; lia.
   Qed.
+  (* C07 (Default mode, most recent r entries): an accepted proof yields exactly the newest
+     min(r, n) entries of the true account, newest first *)
+  Theorem history_recent_sound E p rs r : hp_ok p -> 1 <= n -> n <= E -> E < 2 ^ 64 ->
+    key_history_verify cfg vrf_check pk (root_hash cfg true t) E l p (HMostRecent r) false = Some rs ->
+    (rs = map true_entry (map (fun i => n - N.of_nat i) (seq 0 (length rs))) /\ N.of_nat (length rs) = N.min r n) \/ Bad.
+  Proof.
+    intros (Pu & Pf) Hn HnE HE H. unfold key_history_verify in H.
+    destruct (verify_history_shape E p (HMostRecent r)) as [[past future]|] eqn:Sh; [|discriminate].
+    destruct (verify_updates _ _ _ _ _ _ None (hp_updates p)) as [results|] eqn:Vu; [|discriminate].
+    destruct (forall3 _ past _ _) eqn:Fp; [|discriminate]. cbn [negb] in H.
+    destruct (forall3 _ future _ _) eqn:Ff; [|discriminate]. cbn [negb] in H. injection H as <-.
+    apply updates_sound in Vu; auto. destruct Vu as [[-> Hall]|]; [|now right].
+    unfold verify_history_shape in Sh. set (vs := map up_version (hp_updates p)) in *.
+    destruct vs as [|m vr] eqn:Evs; [discriminate|]. rewrite <- Evs in *.
+    destruct (consecutive_decreasing vs) eqn:Cd; [|discriminate]. cbn [negb] in Sh.
+    set (start_v := fold_left N.min vs m) in *. set (end_v := fold_left N.max vs m) in *.
+    destruct (N.eqb_spec start_v 0) as [|Hs0]; [discriminate|]. destruct (E <? end_v) eqn:Ee; [discriminate|].
+    destruct (r <? N.of_nat (length vs)) eqn:Er; [discriminate|]. apply N.ltb_ge in Er.
+    assert (Hpar : N.of_nat (length vs) < r -> start_v = 1).
+    { intros Hlt. apply N.ltb_lt in Hlt. rewrite Hlt in Sh. destruct (N.eqb_spec start_v 1); [assumption | discriminate]. }
+    assert (Sh' : match get_marker_versions start_v end_v E with
+                  | None => None
+                  | Some (past0, future0) =>
+                    if negb (Nat.eqb (length past0) (length (hp_past_vrf p))) then None
+                    else if negb (Nat.eqb (length (hp_past_vrf p)) (length (hp_past p))) then None
+                    else if negb (Nat.eqb (length future0) (length (hp_future_vrf p))) then None
+                    else if negb (Nat.eqb (length (hp_future_vrf p)) (length (hp_future p))) then None
+                    else Some (past0, future0)
+                  end = Some (past, future)).
+    { destruct (N.of_nat (length vs) <? r); [destruct (start_v =? 1); [exact Sh | discriminate] | exact Sh]. }
+    clear Sh.
+    destruct (get_marker_versions start_v end_v E) as [[pa fu]|] eqn:Gm; [|discriminate].
+    assert (Hfu : future = fu).
+    { repeat match type of Sh' with (if ?c then None else _) = _ => destruct c; [discriminate|] end. congruence. }
+    subst fu.
+    pose proof (consecutive_shape vs Cd m vr Evs) as Hshape.
+    assert (Hm_in : In m vs) by (rewrite Evs; now left).
+    assert (Hend : end_v = m).
+    { unfold end_v. apply fold_max_bound. intros v Hv. destruct (In_nth _ _ 0 Hv) as (i & Hi & <-). specialize (Hshape i Hi). lia. }
+    assert (Hpos : (0 < length vs)%nat) by (rewrite Evs; simpl; lia).
+    (* the smallest version is the last one: m - (len - 1) *)
+    assert (Hstart : start_v + N.of_nat (length vs - 1) = m).
+    { pose proof (Hshape (length vs - 1)%nat ltac:(lia)) as Hlast.
+      destruct (fold_min_le vs m) as [_ G]. fold start_v in G.
+      specialize (G (nth (length vs - 1) vs 0) ltac:(apply nth_In; lia)).
+      destruct (fold_min_in vs m) as [Hmin|Hmin]; fold start_v in Hmin.
+      - lia.
+      - destruct (In_nth _ _ 0 Hmin) as (i & Hi & Hnth). specialize (Hshape i Hi). lia. }
+    assert (Hmn' : m <= n).
+    { assert (Hin : In m (map up_version (hp_updates p))) by exact Hm_in.
+      apply in_map_iff in Hin. destruct Hin as (u & <- & Hu). apply Hall. exact Hu. }
+    destruct (N.eq_dec m n) as [Heq|Hne].
+    - left. rewrite map_length. split.
+      + rewrite <- Heq. rewrite <- map_map with (f := up_version) (g := true_entry). fold vs. f_equal.
+        apply (nth_ext _ _ 0 0).
+        * rewrite map_length, seq_length. unfold vs. rewrite map_length. reflexivity.
+        * intros i Hi. specialize (Hshape i Hi).
+          assert (Hi' : (i < length (hp_updates p))%nat) by (unfold vs in Hi; rewrite map_length in Hi; exact Hi).
+          rewrite (nth_indep (map (fun i0 => m - N.of_nat i0) (seq 0 (length (hp_updates p)))) 0 (m - N.of_nat 0)) by (rewrite map_length, seq_length; exact Hi').
+          rewrite (map_nth (fun i0 => m - N.of_nat i0)). rewrite seq_nth by exact Hi'. simpl. lia.
+      + assert (Hl : length (hp_updates p) = length vs) by (unfold vs; rewrite map_length; reflexivity). rewrite Hl.
+        destruct (N.lt_ge_cases (N.of_nat (length vs)) r) as [Hlt|Hge].
+        * specialize (Hpar Hlt). lia.
+        * lia.
+    - apply marker_future_of in Gm. rewrite Hend in Gm.
+      assert (Hm1 : 1 <= m) by lia.
+      assert (Hnext : In (m + 1) future) by (rewrite Gm; apply MarkerFacts.next_is_future; lia).
+      destruct (forall3_In _ _ _ _ Ff (m + 1) Hnext) as (vp & np & Hnp & Hv).
+      unfold verify_nonexistence in Hv. apply andb_true_iff in Hv. destruct Hv as [Hl Hnm].
+      apply verify_label_label in Hl. destruct (nlabel_full true (m + 1)) as (F1 & F2 & F3).
+      rewrite Forall_forall in Pf. specialize (Pf np Hnp).
+      apply (nonmem_sound_b cfg Bad B) in Hnm; auto; [|rewrite Hl; exact F2].
+      destruct Hnm as [Hnm|HB]; [|right; exact HB]. exfalso. apply Hnm. rewrite Hl. apply tree_has_fresh; lia.
+  Qed.
 End LookupSound.
